@@ -734,6 +734,13 @@ class SymArray(np.ndarray):
         self.view(np.ndarray).fill(v)
 
 
+class IntArr(np.ndarray):
+    """Plain integer array (the result of a modelled argsort) that can be indexed with symbolic positions."""
+    def __getitem__(self, key):
+        r = np.ndarray.__getitem__(self, _concretise_key(key))
+        return r.view(np.ndarray) if isinstance(r, np.ndarray) and r.ndim == 0 else r
+
+
 def _is_sym_mask(key):
     if isinstance(key, np.ndarray) and key.dtype == object and key.size:
         first = key.reshape(-1)[0]
@@ -759,9 +766,20 @@ def _concretise_one(key):
                 of[i] = bool(kf[i])
             return out
         if any(is_sym(e) for e in k.flat):
+            # positions computed from symbolic values (np.searchsorted counts): one path per feasible position
+            if all(isinstance(e, (SymInt, int, np.integer)) and not _isboolish(e) for e in k.flat):
+                from .calmodel import concretise_int
+                out = np.zeros(k.shape, dtype=int)
+                of, kf = out.reshape(-1), k.reshape(-1)
+                for i in range(kf.shape[0]):
+                    of[i] = concretise_int(kf[i], "index") if is_sym(kf[i]) else int(kf[i])
+                return out
             raise Unsupported("symbolic integer index")
         return np.array(k.tolist()) if k.size else np.zeros(k.shape, dtype=int)
-    if isinstance(key, (SymInt, SymFloat)):
+    if isinstance(key, SymInt):
+        from .calmodel import concretise_int
+        return concretise_int(key, "index")
+    if isinstance(key, SymFloat):
         raise Unsupported("symbolic integer index")
     if isinstance(key, SymBool):
         return bool(key)
@@ -905,7 +923,7 @@ def f_sort(a, axis=-1, kind=None, order=None, **kw):
 def f_argsort(a, axis=-1, kind=None, order=None, **kw):
     unspecified = kind not in ("stable", "mergesort")
     r = _along_axis_vec(a, axis, lambda xs: l_argsort(xs, ties_unspecified=unspecified))
-    return np.array(r.tolist(), dtype=int).reshape(r.shape)
+    return np.array(r.tolist(), dtype=int).reshape(r.shape).view(IntArr)
 
 
 def f_unique(ar, return_index=False, return_inverse=False, return_counts=False, axis=None, **kw):
@@ -1008,9 +1026,13 @@ def f_searchsorted(a, v, side="left", sorter=None):
     """Insertion index in an ascending array without NaN: the number of elements
     < v (left) or <= v (right), as a symbolic count (no fork)."""
     _used("searchsorted")
-    if sorter is not None:
-        raise Unsupported("np.searchsorted with sorter=")
     xs = list(to_obj(a).reshape(-1))
+    if sorter is not None:
+        # documented: sorter = indices that sort `a` into ascending order; the count below does not depend on the
+        # order of the elements, only on `a[sorter]` being a permutation of `a` -- which is checked
+        idx = [int(i) for i in to_obj(sorter).reshape(-1)]
+        if sorted(idx) != list(builtins_range(len(xs))):
+            raise Unsupported("np.searchsorted: sorter is not a permutation")
     if bool(l_any_nan(xs)):
         raise Unsupported("np.searchsorted in an array with NaN")
     op = np.less if side == "left" else np.less_equal
@@ -1274,6 +1296,22 @@ class _MaProxy(object):
 
     def filled(self, a, fill_value=None):
         return ma_filled(a, fill_value)
+
+    def is_masked(self, a):
+        _used("np.ma.is_masked")
+        if isinstance(a, SymArray) and a._mask is not None:
+            return f_any(a._mask)
+        if isinstance(a, np.ma.MaskedArray):
+            return np.ma.is_masked(a)
+        return False
+
+    def getmaskarray(self, a):
+        _used("np.ma.getmaskarray")
+        if isinstance(a, SymArray) and a._mask is not None:
+            return a._mask
+        if isinstance(a, np.ma.MaskedArray):
+            return np.ma.getmaskarray(a)
+        return sa(np.zeros(np.shape(a), dtype=bool))
 
     def sum(self, a, axis=None, **kw):
         if is_sym(a):
